@@ -376,3 +376,126 @@ class If:""", 'C06.R5',
             except ParseError as m:
                 self.parse_error(m.args[0], m.args[1], text, pos)"""),
 ]
+
+# --------------------------------------------------------------------- C14
+CATALOGUE['C14'] = [
+    V('try: DTReturn re-raise removed', 'DT_Try.py',
+      """        except DTReturn:
+            raise
+        except Exception:""",
+      """        except Exception:""", 'C14.R1'),
+    V('raise: DTReturn re-raise removed (the repaired defect)',
+      'DT_Raise.py',
+      """        except DTReturn:
+            raise
+        except Exception:""",
+      """        except Exception:""", 'C14.R1'),
+    V('in: per-item render guarded by except Exception', 'DT_In.py',
+      """                try:
+                    append(render(section, md, encoding=self.encoding))
+                finally:
+                    if pushed:
+                        pop()
+                if index == 0:""",
+      """                try:
+                    append(render(section, md, encoding=self.encoding))
+                except Exception:
+                    append('')
+                finally:
+                    if pushed:
+                        pop()
+                if index == 0:""", 'C14.R1'),
+    V('with: swallows everything incl. return', 'DT_With.py',
+      """        try:
+            return render_blocks(self.section, md, encoding=self.encoding)
+        finally:""",
+      """        try:
+            return render_blocks(self.section, md, encoding=self.encoding)
+        except BaseException:
+            return ''
+        finally:""", 'C14.R1'),
+    V('call: catch point widened', 'DT_String.py',
+      """                try:
+                    result = render_blocks(self._v_blocks, md,
+                                           encoding=encoding)
+                except DTReturn as v:
+                    result = v.v
+                self.ZDocumentTemplate_afterRender(md, result)""",
+      """                try:
+                    result = render_blocks(self._v_blocks, md,
+                                           encoding=encoding)
+                    self.ZDocumentTemplate_afterRender(md, result)
+                except DTReturn as v:
+                    result = v.v""", 'C14.R2'),
+    V('let catches DTReturn', 'DT_Let.py',
+      """            return render_blocks(self.section, md, encoding=self.encoding)
+        finally:""",
+      """            return render_blocks(self.section, md, encoding=self.encoding)
+        except DTReturn as r:
+            return r.v
+        finally:""", 'C14.R2',
+      extra=[('from .DT_Util import ParseError',
+              'from .DT_Util import ParseError\n'
+              'from .DT_Return import DTReturn')]),
+    V('else rendered inside the try body', 'DT_Try.py',
+      """            result = render_blocks(self.section, md, encoding=self.encoding)
+        except DTReturn:""",
+      """            result = render_blocks(self.section, md, encoding=self.encoding)
+            if self.elseBlock is not None:
+                result = result + render_blocks(self.elseBlock, md,
+                                                encoding=self.encoding)
+        except DTReturn:""", 'C14.R3-R5'),
+    V('finally rendered after the try', 'DT_Try.py',
+      """        try:
+            result = render_blocks(self.section, md, encoding=self.encoding)
+        # Then handle finally block
+        finally:
+            result = result + render_blocks(self.finallyBlock, md,
+                                            encoding=self.encoding)
+        return result""",
+      """        result = render_blocks(self.section, md, encoding=self.encoding)
+        result = result + render_blocks(self.finallyBlock, md,
+                                        encoding=self.encoding)
+        return result""", 'C14.R3-R5'),
+    V('handler body guarded by except', 'DT_Try.py',
+      """                return render_blocks(handler, md, encoding=self.encoding)
+            finally:
+                md._pop(1)""",
+      """                return render_blocks(handler, md, encoding=self.encoding)
+            except Exception:
+                return ''
+            finally:
+                md._pop(1)""", 'C14.R3-R5'),
+    V('raise returns normally', 'DT_Raise.py',
+      """        t, v = upgradeException(t, v)
+        raise t(v)""",
+      """        t, v = upgradeException(t, v)
+        if t is None:
+            return v
+        raise t(v)""", 'C14.R6-R7'),
+    V('handlers searched in reverse', 'DT_Try.py',
+      "        for e, h in self.handlers:",
+      "        for e, h in reversed(self.handlers):", 'C14.R6-R7'),
+    V('match_base does not recurse', 'DT_Try.py',
+      "if base.__name__ == name or self.match_base(base, name):",
+      "if base.__name__ == name:", 'C14.R6-R7'),
+    # silent
+    V('silent: explicit tuple in handler', 'DT_Try.py',
+      """        except DTReturn:
+            raise
+        except Exception:""",
+      """        except (DTReturn,):
+            raise
+        except Exception:"""),
+    V('silent: int_param handler untouched / extra benign try', 'DT_In.py',
+      """        try:
+            query_string = md['QUERY_STRING']
+        except Exception:
+            query_string = ''
+        prefix = params.get('prefix')""",
+      """        try:
+            query_string = md['QUERY_STRING']
+        except BaseException:
+            query_string = ''
+        prefix = params.get('prefix')"""),
+]
